@@ -22,6 +22,11 @@ Tie (H + T, on every run):
   lean/J2O/Gen/C06.lean and `GenProps/C06.lean` proves (decide) that it equals `accepts`, which
   `reject_iff_unsupported` equates with "scheme proved".
 
+Round 2 (lean/J2O/Props/C06R2.lean + ties): tensor-level vmapped while (freeze mask = Unsqueeze(pred, range(p, n)),
+broadcast by ONNX rules; extracted from every real batched Loop body), scan trip count = sequence length for every body
+(trip-count source compared for bodies with their own static extents), body identity (each exported Loop/If body carries
+its own closure's constants; shared code objects within and across exports).  See notes/C06.md "Round 2".
+
 Search / validation: every generated program is exported once and run in ONNX Runtime against eager
 JAX over steering inputs (0, 1, 2, k trips, data-dependent exits, both branches, all clamped switch
 indices, symbolic scan lengths incl. the smallest): values, dtypes' kinds and run-time shapes.
@@ -51,7 +56,11 @@ META = {
                   "while_scheme (+ exact number of body executions, zero-trip), while_batched_scheme, fori_scheme, "
                   "scan_scheme, scan_stacked_extent, cond_scheme, switch2_scheme, reject_iff_unsupported. The tie "
                   "checks on every run that the Loop/If nodes the live plugins emit are wired as the schemes "
-                  "prescribe and that the plugins accept exactly the variants of the proved table.",
+                  "prescribe and that the plugins accept exactly the variants of the proved table. Round 2 "
+                  "(Props/C06R2): while_batched_tensor_scheme (carried tensors of every rank; freeze mask broadcast), "
+                  "scan_trip_iff_length (trip count = sequence length for every body), scan_noxs_scheme, memo_sound / "
+                  "fori_export_faithful (every loop gets its own closure's body), with refutations of the mis-lowerings; "
+                  "tied by the freeze-mask extraction, the trip-count source and the body-identity marks.",
     "level_note": "Trusted: Lean kernel + 3 standard axioms; the wiring extractor in harness/props/c06.py (data-flow "
                   "analysis of onnx_ir graphs); ONNX Loop/If semantics as modelled (compared with ONNX Runtime on a "
                   "box each run); bodies/conditions are opaque functions (their own lowering is C01's scope); trip "
@@ -60,7 +69,7 @@ META = {
     "design_ref": "DESIGN.md §3 C06",
 }
 
-MODS = ["J2O.Props.C06", "J2O.Lemmas.C06", "J2O.GenProps.C06"]
+MODS = ["J2O.Props.C06", "J2O.Lemmas.C06", "J2O.GenProps.C06", "J2O.Props.C06R2", "J2O.Lemmas.C06R2"]
 INT64_MAX = int(np.iinfo(np.int64).max)
 
 
@@ -266,7 +275,7 @@ def extract_loop_wiring(node: Any, invar_vals: list, outvar_vals: list, roles: l
             "nScanOut": n_scan, "gathered": sorted(gathered), "iterOffset": offset, "results": results}
 
 
-def _graph_floats(g: Any) -> set:
+def _graph_floats(g: Any, recurse: bool = True) -> set:
     vals = set()
     try:
         for n in g:
@@ -281,11 +290,54 @@ def _graph_floats(g: Any) -> set:
                     vals.update(float(x) for x in c.reshape(-1))
             for a in n.attributes.values():
                 sub = getattr(a, "value", None)
-                if hasattr(sub, "outputs") and hasattr(sub, "inputs") and not isinstance(sub, (str, bytes)):
+                if recurse and hasattr(sub, "outputs") and hasattr(sub, "inputs") and not isinstance(sub, (str, bytes)):
                     vals |= _graph_floats(sub)
     except Exception:
         pass
     return vals
+
+
+def extract_freeze(node: Any, n_state: int, pshape: tuple, state_shapes: list) -> list:
+    """vmapped while: how the body freezes a finished lane.  For every state slot: the shape of the mask the
+    `Where` that produces the carried output is given (from the Unsqueeze axes / a constant Reshape target /
+    the value's static shape), and whether the frozen alternative is the slot's OLD carried value."""
+    body = node.attributes["body"].value
+    b_in, b_out = list(body.inputs), list(body.outputs)
+    n_carried = len(node.inputs) - 2
+    carried_in = b_in[2:2 + n_carried]
+    carried_out = b_out[1:1 + n_carried]
+    pred_in = carried_in[0]
+    res = []
+    for j in range(n_state):
+        k = n_carried - n_state + j
+        entry: dict = {"stateRank": len(state_shapes[j]), "select": "other", "axes": None, "maskShape": None,
+                       "elseOld": None}
+        v = _strip(carried_out[k])
+        p = v.producer() if v is not None else None
+        if p is not None and p.op_type == "Where" and len(p.inputs) == 3:
+            entry["select"] = "Where"
+            entry["elseOld"] = _strip(p.inputs[2]) is carried_in[k]
+            mask = _strip(p.inputs[0])
+            q = mask.producer() if mask is not None else None
+            if mask is pred_in:
+                entry["axes"], entry["maskShape"] = [], [int(d) for d in pshape]
+            elif q is not None and q.op_type == "Unsqueeze" and _strip(q.inputs[0]) is pred_in:
+                ax = _const_of(q.inputs[1]) if len(q.inputs) > 1 else None
+                if ax is None and "axes" in q.attributes:
+                    ax = np.asarray(list(q.attributes["axes"].value))
+                if ax is not None:
+                    rank = len(pshape) + int(np.asarray(ax).size)
+                    entry["axes"] = sorted(int(a) % rank for a in np.asarray(ax).reshape(-1))
+            elif q is not None and q.op_type == "Reshape" and _strip(q.inputs[0]) is pred_in:
+                tgt = _const_of(q.inputs[1])
+                if tgt is not None and all(int(d) > 0 for d in np.asarray(tgt).reshape(-1)):
+                    entry["maskShape"] = [int(d) for d in np.asarray(tgt).reshape(-1)]
+            if entry["axes"] is None and entry["maskShape"] is None:
+                dims = getattr(getattr(mask, "shape", None), "dims", None)
+                if dims is not None and all(isinstance(d, (int, np.integer)) for d in dims):
+                    entry["maskShape"] = [int(d) for d in dims]
+        res.append(entry)
+    return res
 
 
 def _jaxpr_floats(jaxpr_like: Any) -> set:
@@ -314,6 +366,8 @@ def _jaxpr_floats(jaxpr_like: Any) -> set:
 
 
 MAGIC = (1001.0, 1002.0, 1003.0, 1004.0)
+MARKS = tuple(2001.0 + j for j in range(40))      # closed-over constants that identify a body (round 2)
+ALLMARKS = frozenset(MAGIC) | frozenset(MARKS)
 
 
 def extract_if_wiring(node: Any, eqn: Any) -> dict:
@@ -323,10 +377,10 @@ def extract_if_wiring(node: Any, eqn: Any) -> dict:
     p = cond_v.producer()
     cast = p is not None and p.op_type == "Cast" and int(p.attributes["to"].value) == 9
     branches = eqn.params.get("branches")
-    marks = [(_jaxpr_floats(b) & set(MAGIC)) for b in branches]
+    marks = [(_jaxpr_floats(b) & ALLMARKS) for b in branches]
     res = {"castToBool": bool(cast) or str(getattr(getattr(cond_v, "type", None), "dtype", "")) .endswith("BOOL")}
     for key, attr in (("thenBranch", "then_branch"), ("elseBranch", "else_branch")):
-        fl = _graph_floats(node.attributes[attr].value) & set(MAGIC)
+        fl = _graph_floats(node.attributes[attr].value) & ALLMARKS
         hit = [i for i, m in enumerate(marks) if m and m <= fl]
         res[key] = hit[0] if len(hit) == 1 else None
     return res
@@ -392,6 +446,12 @@ class Instr:
                                      "batched": bool(pshape)}
                     rec["real"] = extract_loop_wiring(node, invar_vals, outvar_vals, roles,
                                                       pred_slots=(0,) if pshape else ())
+                    if pshape:
+                        bj = p["body_jaxpr"]
+                        st_shapes = [tuple(ov.aval.shape) for ov in getattr(bj, "jaxpr", bj).outvars]
+                        if all(isinstance(d, (int, np.integer)) for d in pshape):
+                            rec["freeze"] = {"predShape": [int(d) for d in pshape],
+                                             "slots": extract_freeze(node, n_state, pshape, st_shapes)}
                 elif kind == "fori":
                     rec["params"] = {"kind": "fori", "lo": int(p.get("lower", 0) or 0),
                                      "trip": int(p.get("trip_count", 0)), "nState": len(eqn.invars)}
@@ -431,6 +491,17 @@ class Instr:
                 else:
                     rec["params"] = {"kind": "cond"}
                     rec["real"] = extract_if_wiring(node, eqn)
+                # body identity: the marks (closed-over constants of generated bodies) that occur in THIS node's
+                # own body graph(s), nested graphs excluded
+                own = set()
+                for attr in ("body", "then_branch", "else_branch"):
+                    if attr in node.attributes:
+                        own |= _graph_floats(node.attributes[attr].value, recurse=False) & frozenset(MARKS)
+                for i in node.inputs:                  # a constant handed to the node from outside counts as its own
+                    c = _const_of(i)
+                    if c is not None and c.size <= 4 and c.dtype.kind == "f":
+                        own |= {float(x) for x in c.reshape(-1)} & frozenset(MARKS)
+                rec["marks"] = sorted(own)
             except Exception as e:  # extraction trouble is reported as a broken correspondence
                 rec["extract_error"] = f"{type(e).__name__}: {e}"
             me.records.append(rec)
@@ -465,9 +536,12 @@ def wiring_equal(real: dict, model: dict) -> list:
 
 class Prog:
     def __init__(self, name: str, fn: Callable, specs: list, inputs: list, kwargs: Optional[dict] = None,
-                 expect: Optional[list] = None):
+                 expect: Optional[list] = None, closures: Optional[list] = None):
         self.name, self.fn, self.specs, self.inputs, self.kwargs = name, fn, specs, inputs, kwargs or {}
         self.expect = expect       # expected control-flow kinds (sanity: the construct was not optimised away)
+        # body identity: [(code id, closed-over mark), ...] — one entry per control-flow body this program
+        # creates from a shared code object (step factory, lambda in a Python loop, the arms of a cond)
+        self.closures = closures
 
 
 def _sds(shape, dtype):
@@ -789,6 +863,326 @@ def random_programs(rng: common.Rng, n: int) -> list[Prog]:
     return P
 
 
+# ----------------------------------------------------------------------------- round 2 program families
+
+
+# shared code objects: every body made by one of these factories has the SAME code object and differs
+# only in its closure cells (module level on purpose: shared across programs = across exports, too)
+def make_fori_step(scale, mark):
+    def step(i, v):
+        return v * scale + mark + i
+    return step
+
+
+def make_while_cond(limit):
+    def cond(s):
+        return s[0] < limit
+    return cond
+
+
+def make_while_body(scale, mark):
+    def body(s):
+        return s[0] + 1, s[1] * scale + mark
+    return body
+
+
+def make_scan_step(scale, mark):
+    def step(c, x):
+        return c * scale + x + mark, c - x
+    return step
+
+
+def make_branch(mark):
+    def branch(v):
+        return v * 0.5 + mark
+    return branch
+
+
+BW_SHAPES = {0: [(3,), (1,)], 1: [(2, 2), (3, 2)], 2: [(2, 2, 3), (3, 2, 2), (2, 3, 2)], 3: [(2, 2, 2, 2), (3, 2, 1, 2)]}
+BODY_KINDS = ("scatter_add", "scatter_set", "gather", "dus", "concat", "iota", "reshape")
+
+
+def _lanes(shape, lane_vals):
+    """(B,)+rest array: lane j is filled with lane_vals[j] (+ a small distinct ramp, so that an update that
+    lands on the wrong axis is visible)"""
+    B = shape[0]
+    rest = int(np.prod(shape[1:])) if len(shape) > 1 else 1
+    out = np.zeros((B, rest), np.float32)
+    for j in range(B):
+        out[j] = lane_vals[j % len(lane_vals)] + 0.015625 * np.arange(rest, dtype=np.float32)
+    return out.reshape(shape)
+
+
+def batched_while_programs(rng: common.Rng, thorough: bool) -> list[Prog]:
+    """class (a): vmapped while with a batched predicate; carried values of per-example rank 0..3 (B = N and
+    B != N), a second carried value of per-example rank 0, lanes with different trip counts incl. zero trips"""
+    import jax
+    import jax.numpy as jnp
+    from jax import lax
+    P = []
+
+    def mk(shape, T):
+        def fn(x):
+            def one(m):
+                def cond(s):
+                    v, n = s
+                    return (jnp.sum(v) < T) & (n < 9)
+                def body(s):
+                    v, n = s
+                    return v * 2.0 + 1.0, n + 1
+                return lax.while_loop(cond, body, (m, jnp.int32(0)))
+            return jax.vmap(one)(x)
+        return fn
+
+    for r, shapes in BW_SHAPES.items():
+        picks = shapes if thorough else [shapes[0], rng.choice(shapes[1:])] if len(shapes) > 1 else shapes
+        for shape in picks:
+            size = int(np.prod(shape[1:])) if len(shape) > 1 else 1
+            T = 20.0 * size
+            # per-lane start values: 0 -> 5 trips, 1 -> 4, 3 -> 3, 7 -> 2, 12 -> 1, 25 -> 0 trips
+            sets = [[0.0, 25.0, 3.0], [25.0, 0.0, 12.0], [7.0, 1.0, 25.0], [25.0, 25.0, 25.0], [1.0, 1.0, 1.0]]
+            inputs = [[_lanes(shape, lv)] for lv in sets]
+            name = "bw_rank%d_%s" % (r, "x".join(map(str, shape)))
+            P.append(Prog(name, mk(shape, T), [f32(*shape)], inputs, expect=["while"]))
+
+    # integer matrix state, non-monotone exit: a finished lane must stay frozen
+    def bw_int(x):
+        def one(m):
+            def cond(s):
+                v, n = s
+                return ((jnp.sum(v) % 4) != 3) & (n < 16)
+            def body(s):
+                v, n = s
+                return v.at[0, 0].add(1), n + 1
+            return lax.while_loop(cond, body, (m, jnp.int32(0)))
+        return jax.vmap(one)(x)
+    def imat(vals):
+        a = np.zeros((2, 2, 2), np.int32)
+        for j, v in enumerate(vals):
+            a[j, 0, 0] = v
+            a[j, 1, 1] = 4 * (j + 1)
+        return a
+    P.append(Prog("bw_int_nonmonotone_2x2x2", bw_int, [i32(2, 2, 2)],
+                  [[imat(v)] for v in ([3, 0], [0, 3], [1, 2], [3, 3], [2, 7])], expect=["while"]))
+
+    # nested vmap: predicate of rank 2
+    def bw_nested(x):
+        def one(m):
+            return lax.while_loop(lambda v: jnp.sum(v) < 40.0, lambda v: v * 2.0 + 1.0, m)
+        return jax.vmap(jax.vmap(one))(x)
+    def nested_in(vals):
+        a = np.zeros((2, 2, 2), np.float32)
+        for j, v in enumerate(vals):
+            a[j // 2, j % 2] = v + 0.015625 * np.arange(2, dtype=np.float32)
+        return a
+    P.append(Prog("bw_nested_vmap_2x2x2", bw_nested, [f32(2, 2, 2)],
+                  [[nested_in(v)] for v in ([0, 25, 3, 7], [25, 25, 25, 25], [12, 0, 25, 1])], expect=["while"]))
+    return P
+
+
+def extent_body_programs(rng: common.Rng, thorough: bool) -> list[Prog]:
+    """class (b): loop bodies whose primitives carry their own static extents (scatter / gather with index
+    vectors, dynamic_update_slice, concatenate, iota, reshape) that differ from the trip count"""
+    import jax.numpy as jnp
+    from jax import lax
+    P = []
+    F = lambda v: np.asarray(v, dtype=np.float32)
+    I = lambda v: np.asarray(v, dtype=np.int32)
+
+    def body_of(kind):
+        idx = np.array([0, 2], dtype=np.int32)
+        gidx = np.array([3, 1, 0], dtype=np.int32)
+        def upd(c, x):          # c: (4,), x: (2,)
+            if kind == "scatter_add":
+                return c.at[jnp.asarray(idx)].add(x)
+            if kind == "scatter_set":
+                return c.at[jnp.asarray(idx)].set(x + c[1])
+            if kind == "gather":
+                return c + jnp.sum(c[jnp.asarray(gidx)] * jnp.asarray([1.0, 2.0, 3.0], jnp.float32)) * 0.125 + jnp.sum(x)
+            if kind == "dus":
+                return lax.dynamic_update_slice(c, x * 0.5, (1,)) + 1.0
+            if kind == "concat":
+                return c * 0.5 + jnp.concatenate([x, x, x])[1:5]
+            if kind == "iota":
+                return c + jnp.arange(4, dtype=jnp.float32) * jnp.sum(x)
+            if kind == "reshape":
+                return (c.reshape(2, 2) * x.reshape(1, 2) + 1.0).reshape(4)
+            raise KeyError(kind)
+        return upd
+
+    def xs_of(T, salt=0):
+        return (np.arange(2 * T, dtype=np.float32).reshape(T, 2) * 0.25 + 1.0 + salt).astype(np.float32)
+    buf = F([0.5, -1.0, 2.0, 0.25])
+
+    def mk_scan(kind):
+        upd = body_of(kind)
+        def fn(xs, b):
+            def body(c, x):
+                new = upd(c, x)
+                return new, jnp.sum(new)
+            return lax.scan(body, b, xs)
+        return fn
+
+    lens = {"scatter_add": (1, 2, 3, 5), "scatter_set": (1, 3)}
+    for kind in BODY_KINDS:
+        Ts = lens.get(kind, (3,) if not thorough else (1, 3, 5))
+        if not thorough and kind not in lens:
+            Ts = (rng.choice([1, 3, 5]),)
+        for T in Ts:
+            P.append(Prog(f"scan_{kind}_T{T}", mk_scan(kind), [f32(T, 2), f32(4)],
+                          [[xs_of(T), buf], [xs_of(T, 2), buf * 2.0]], expect=["scan"]))
+    # symbolic length: the trip count must be read from the scanned input at run time
+    for kind in ("scatter_add", "gather") if not thorough else BODY_KINDS:
+        P.append(Prog(f"scan_{kind}_symbolic", mk_scan(kind), [("L", 2), f32(4)],
+                      [[xs_of(T), buf] for T in (1, 2, 3, 6)], expect=["scan"]))
+    # two scanned inputs of the same length, scatter window 2, carry of extent 4, stacked output of extent 3
+    def scan_two_xs(xs, ws, b):
+        def body(c, xw):
+            x, w = xw
+            new = c.at[jnp.asarray([1, 3])].add(x * w)
+            return new, jnp.concatenate([new[:2], w[None]])
+        return lax.scan(body, b, (xs, ws))
+    for T in (1, 3, 4):
+        P.append(Prog(f"scan_two_xs_scatter_T{T}", scan_two_xs, [f32(T, 2), f32(T), f32(4)],
+                      [[xs_of(T), vec(T, 1), buf]], expect=["scan"]))
+    # scan without xs
+    for kind, L in (("scatter_add", 3), ("scatter_set", 1), ("iota", 1), ("dus", 5)):
+        upd = body_of(kind)
+        def noxs(b, w, upd=upd, L=L):
+            def body(c, _):
+                new = upd(c, w)
+                return new, new[:3]
+            return lax.scan(body, b, None, length=L)
+        P.append(Prog(f"scan_noxs_{kind}_L{L}", noxs, [f32(4), f32(2)], [[buf, F([1.0, 2.0])]], expect=["scan"]))
+    # zero trips with a NON-SCALAR per-step output: the empty stacked output must keep the per-step extents
+    def scan_len0_noxs(b):
+        return lax.scan(lambda c, _: (c * 2.0, c[:3]), b, None, length=0)
+    P.append(Prog("scan_len0_vector_ys_noxs", scan_len0_noxs, [f32(4)], [[buf]], expect=["scan"]))
+    def scan_len0_xs(xs, b):
+        return lax.scan(lambda c, x: (c * 2.0 + jnp.sum(x), c[:3]), b, xs)
+    P.append(Prog("scan_len0_vector_ys_xs", scan_len0_xs, [f32(0, 2), f32(4)], [[np.zeros((0, 2), np.float32), buf]],
+                  expect=["scan"]))
+    # fori: trip count 0/1/3/5 vs window 2
+    for lo, hi in ((0, 0), (0, 1), (1, 4), (0, 5)):
+        def fori_vec(b, lo=lo, hi=hi):
+            def body(i, c):
+                return c.at[jnp.asarray([0, 2])].add(jnp.stack([i * 1.0, i * 2.0 + 1.0]))
+            return lax.fori_loop(lo, hi, body, b)
+        P.append(Prog(f"fori_scatter_vec_{lo}_{hi}", fori_vec, [f32(4)], [[buf], [buf + 1.0]], expect=["fori"]))
+    def fori_concat(b):
+        def body(i, c):
+            return jnp.concatenate([c[2:], c[:2]]) + jnp.arange(4, dtype=jnp.float32) * i
+        return lax.fori_loop(0, 3, body, b)
+    P.append(Prog("fori_concat_iota_0_3", fori_concat, [f32(4)], [[buf]], expect=["fori"]))
+    # while with a run-time bound
+    def while_vec(b, n):
+        def body(s):
+            i, c = s
+            return i + 1, c.at[jnp.asarray([0, 2])].add(jnp.stack([c[1], c[3] * 0.5]))
+        return lax.while_loop(lambda s: s[0] < n, body, (jnp.int32(0), b))
+    P.append(Prog("while_scatter_vec", while_vec, [f32(4), i32()], [[buf, I(n)] for n in (0, 1, 2, 3, 5)],
+                  expect=["while"]))
+    def while_dus(b, n):
+        def body(s):
+            i, c = s
+            return i + 1, lax.dynamic_update_slice(c, c[:2] * 2.0, (i % 3,))
+        return lax.while_loop(lambda s: s[0] < n, body, (jnp.int32(0), b))
+    P.append(Prog("while_dus", while_dus, [f32(4), i32()], [[buf, I(n)] for n in (0, 1, 4)], expect=["while"]))
+    return P
+
+
+def shared_code_programs(rng: common.Rng, thorough: bool) -> list[Prog]:
+    """class (c): several control-flow constructs whose bodies share a code object and differ only in
+    closed-over constants — in one export (step factory, lambda in a Python loop, the arms of a cond) and
+    across successive exports in this process (the factories are module level)"""
+    import jax.numpy as jnp
+    from jax import lax
+    P = []
+    F = lambda v: np.asarray(v, dtype=np.float32)
+    I = lambda v: np.asarray(v, dtype=np.int32)
+    x2 = F([1.0, -2.0])
+    marks = iter(MARKS)
+    nx = lambda: next(marks)
+    sc = lambda: rng.choice([2.0, 3.0, 0.5, -1.0, 1.5])
+
+    m = [nx() for _ in range(3)]
+    cs = [sc() for _ in range(3)]
+    def fori_stacked(x, m=m, cs=cs):
+        for scale, mark in zip(cs, m):
+            x = lax.fori_loop(0, 2, make_fori_step(scale, mark), x)
+        return x
+    P.append(Prog("fori_factory_stacked", fori_stacked, [f32(2)], [[x2], [x2 * 3.0]], expect=["fori"] * 3,
+                  closures=[(a,) for a in m]))
+
+    m2 = [nx() for _ in range(2)]
+    def fori_arms(p, x, m2=m2):
+        return lax.cond(p > 0.0,
+                        lambda v: lax.fori_loop(0, 3, make_fori_step(2.0, m2[0]), v),
+                        lambda v: lax.fori_loop(0, 3, make_fori_step(-1.0, m2[1]), v), x)
+    P.append(Prog("fori_factory_cond_arms", fori_arms, [f32(), f32(2)], [[F(p), x2] for p in (-1.0, 1.0)],
+                  expect=["cond", "fori", "fori"], closures=[(), (m2[0],), (m2[1],)]))
+
+    m3 = [nx() for _ in range(3)]
+    def fori_trips(x, m3=m3):
+        a = lax.fori_loop(0, 0, make_fori_step(5.0, m3[0]), x)
+        b = lax.fori_loop(0, 1, make_fori_step(7.0, m3[1]), x)
+        c = lax.fori_loop(2, 5, make_fori_step(1.5, m3[2]), x)
+        return a, b, c
+    P.append(Prog("fori_factory_trips", fori_trips, [f32(2)], [[x2]], expect=["fori"] * 3,
+                  closures=[(a,) for a in m3]))
+
+    m4 = [nx() for _ in range(3)]
+    def fori_pyloop(x, m4=m4):
+        for k in m4:                                   # one lambda per layer, late-bound cell `k`
+            x = lax.fori_loop(0, 2, lambda i, v: v * 0.5 + k + i, x)
+        return x
+    P.append(Prog("fori_lambda_pyloop", fori_pyloop, [f32(2)], [[x2]], expect=["fori"] * 3,
+                  closures=[(a,) for a in m4]))
+
+    # the same factory again in a LATER export (a memo that outlives one export)
+    m5 = nx()
+    s5 = sc()
+    P.append(Prog("fori_factory_next_export", lambda x: lax.fori_loop(0, 2, make_fori_step(s5, m5), x),
+                  [f32(2)], [[x2]], expect=["fori"], closures=[(m5,)]))
+
+    m6 = [nx() for _ in range(2)]
+    def while_factory(x, n, m6=m6):
+        a = lax.while_loop(make_while_cond(n), make_while_body(0.5, m6[0]), (jnp.int32(0), x))[1]
+        b = lax.while_loop(make_while_cond(n + 1), make_while_body(2.0, m6[1]), (jnp.int32(0), x))[1]
+        return a, b
+    P.append(Prog("while_factory_two", while_factory, [f32(2), i32()], [[x2, I(n)] for n in (0, 1, 3)],
+                  expect=["while"] * 2, closures=[(a,) for a in m6]))
+    m7 = nx()
+    P.append(Prog("while_factory_next_export",
+                  lambda x, n: lax.while_loop(make_while_cond(n), make_while_body(3.0, m7), (jnp.int32(0), x))[1],
+                  [f32(2), i32()], [[x2, I(n)] for n in (0, 2)], expect=["while"], closures=[(m7,)]))
+
+    m8 = [nx() for _ in range(2)]
+    def scan_factory(xs, m8=m8):
+        c1, y1 = lax.scan(make_scan_step(0.5, m8[0]), jnp.float32(1.0), xs)
+        c2, y2 = lax.scan(make_scan_step(2.0, m8[1]), jnp.float32(1.0), xs)
+        return c1, y1, c2, y2
+    P.append(Prog("scan_factory_two", scan_factory, [f32(3)], [[vec(3)]], expect=["scan"] * 2,
+                  closures=[(a,) for a in m8]))
+    m9 = nx()
+    P.append(Prog("scan_factory_next_export", lambda xs: lax.scan(make_scan_step(-1.0, m9), jnp.float32(1.0), xs),
+                  [f32(4)], [[vec(4)]], expect=["scan"], closures=[(m9,)]))
+
+    m10 = [nx() for _ in range(4)]
+    def cond_factory(p, q, x, m10=m10):
+        a = lax.cond(p > 0.0, make_branch(m10[1]), make_branch(m10[0]), x)
+        b = lax.cond(q > 0.0, make_branch(m10[3]), make_branch(m10[2]), x)
+        return a, b
+    P.append(Prog("cond_factory_two", cond_factory, [f32(), f32(), f32(2)],
+                  [[F(p), F(q), x2] for p in (-1.0, 1.0) for q in (-1.0, 1.0)], expect=["cond"] * 2,
+                  closures=[tuple(sorted(m10[:2])), tuple(sorted(m10[2:]))]))
+    return P
+
+
+def round2_programs(rng: common.Rng, thorough: bool) -> list[Prog]:
+    return batched_while_programs(rng, thorough) + extent_body_programs(rng, thorough) + shared_code_programs(rng, thorough)
+
+
 # ----------------------------------------------------------------------------- reject table
 
 
@@ -869,7 +1263,18 @@ def tabulate_rejects() -> list[dict]:
 
 
 def generate(rows: Optional[list] = None) -> list:
-    rows = rows if rows is not None else tabulate_rejects()
+    if rows is None:
+        # standalone call (vcheck setup / seedtest's final regeneration): same lock as run(), so that the table
+        # is never swapped between another run's generate() and its build of GenProps
+        import fcntl
+        rows = tabulate_rejects()
+        (LEAN / ".lake").mkdir(exist_ok=True)
+        with open(LEAN / ".lake" / "c06.gen.lock", "w") as lock_fh:
+            fcntl.flock(lock_fh, fcntl.LOCK_EX)
+            try:
+                return generate(rows)
+            finally:
+                fcntl.flock(lock_fh, fcntl.LOCK_UN)
 
     def lean_row(r):
         return (f"({CONSTRUCT_CODE[r['construct']]}, {lean_bool(r['reverse'])}, {r['nXs']}, "
@@ -990,6 +1395,51 @@ def check_loop_semantics(chk: Check, raw: list) -> None:
     chk.add("traces_validated_against_impl", len(cases) + len(wcases))
 
 
+BCAST_CASES = [([2, 1], [2, 2, 3]), ([2, 1, 1], [2, 2, 3]), ([3, 1], [3, 2]), ([2], [2]), ([2, 2, 1], [2, 2, 2]),
+               ([1, 1], [1, 2]), ([3, 1, 1, 1], [3, 2, 1, 2]), ([2, 1], [3, 2, 2]), ([2, 3], [2, 3]), ([1], [2, 2])]
+SCANM_CASES = [(0, []), (3, [1, 2, 3]), (2, [1, 2, 3]), (1, [5]), (4, [1, -2, 3, 7])]
+
+
+def check_broadcast_semantics(chk: Check, raw: list) -> None:
+    """`bproj` (which mask element ONNX broadcasting reads for every element of the state) vs ONNX Runtime's
+    `Where` (one one-hot mask per mask element); `scanSchemeM`/`scanJ` vs a Python scan."""
+    from onnx import helper, TensorProto
+    ans = [json.loads(x) for x in raw]
+    g = helper.make_graph([helper.make_node("Where", ["m", "a", "b"], ["y"])], "g",
+                          [helper.make_tensor_value_info("m", TensorProto.BOOL, None),
+                           helper.make_tensor_value_info("a", TensorProto.INT64, None),
+                           helper.make_tensor_value_info("b", TensorProto.INT64, None)],
+                          [helper.make_tensor_value_info("y", TensorProto.INT64, None)])
+    sess = ort_session(helper.make_model(g, opset_imports=[helper.make_opsetid("", 21)], ir_version=10).SerializeToString())
+    bad = []
+    for (ms, ss), an in zip(BCAST_CASES, ans):
+        n_mask = int(np.prod(ms))
+        reads = np.full(int(np.prod(ss)), -1, dtype=np.int64)
+        for q in range(n_mask):
+            m = np.zeros(n_mask, dtype=np.bool_)
+            m[q] = True
+            (y,) = sess.run(None, {"m": m.reshape(ms), "a": np.ones(ss, np.int64), "b": np.zeros(ss, np.int64)})
+            if list(y.shape) != list(ss):
+                bad.append((ms, ss, "shape", list(y.shape)))
+            reads[np.asarray(y).reshape(-1) == 1] = q
+        if reads.tolist() != an.get("reads"):
+            bad.append((ms, ss, reads.tolist(), an))
+    for (M, xs), an in zip(SCANM_CASES, ans[len(BCAST_CASES):]):
+        c, ys = 0, []
+        for x in xs:
+            ys.append(c * 2 + x)
+            c = c + x
+        if an.get("jaxCarry") != c or an.get("jaxStacked") != ys or \
+                ((an.get("carry"), an.get("stacked")) == (c, ys)) != (M == len(xs)):
+            bad.append(("scanM", M, xs, an))
+    if bad:
+        raise RuntimeError(f"the modelled broadcasting / scan semantics disagree with the runtime: {bad[:3]}")
+    chk.info("broadcast_semantics_box", {"where_cases": len(BCAST_CASES), "scan_cases": len(SCANM_CASES),
+                                         "result": "Lean bproj = ONNX Runtime Where broadcasting (which mask element every "
+                                                   "state element reads); scanSchemeM M = scanJ exactly when M = length"})
+    chk.add("traces_validated_against_impl", len(BCAST_CASES) + len(SCANM_CASES))
+
+
 # ----------------------------------------------------------------------------- the check
 
 
@@ -1026,7 +1476,7 @@ def run(chk: Check) -> None:
     t_prove = time.time() - t_p
 
     # ---- H: wiring of every real Loop/If node ---------------------------------------------
-    progs = fixed_programs() + random_programs(rng, 24 if not thorough else 240)
+    progs = fixed_programs() + random_programs(rng, 24 if not thorough else 240) + round2_programs(rng, thorough)
     stats = {"programs": 0, "not_exportable": 0, "equations": 0, "wiring_equal": 0, "ort_runs": 0, "ort_errors": 0,
              "outputs_compared": 0, "by_kind": {}}
     timing = {"export": 0.0, "ort": 0.0, "jax": 0.0}
@@ -1060,12 +1510,61 @@ def run(chk: Check) -> None:
                 continue
             reqs.append(json.dumps({"op": "prescribe", **rec["params"]}))
             owner.append((pi, ri))
+    # round 2: freeze masks of the vmapped whiles, body identity of programs with shared code objects
+    r2_reqs, r2_owner = [], []
+    for pi, (prog, model, ins) in enumerate(exported):
+        for ri, rec in enumerate(ins.records):
+            fz = rec.get("freeze")
+            if fz:
+                for si, slot in enumerate(fz["slots"]):
+                    r2_reqs.append(json.dumps({"op": "mask", "predShape": fz["predShape"], "stateRank": slot["stateRank"],
+                                               "axes": slot["axes"] if slot["axes"] is not None else []}))
+                    r2_owner.append(("mask", pi, ri, si))
+        if prog.closures is not None:
+            singles = [c[0] for c in prog.closures if len(c) == 1]
+            r2_reqs.append(json.dumps({"op": "bodies", "loops": [[0, int(m)] for m in singles]}))
+            r2_owner.append(("bodies", pi, None, None))
+    box_reqs = [json.dumps({"op": "bcast", "maskShape": ms, "stateShape": ss}) for ms, ss in BCAST_CASES] + \
+               [json.dumps({"op": "scanM", "M": M, "xs": xs}) for M, xs in SCANM_CASES]
     # one driver process for everything: accept table, Loop semantics box, prescriptions
     sem_reqs = loop_semantics_requests()
-    raw = common.run_driver("C06", acc_reqs + sem_reqs + reqs)
+    raw = common.run_driver("C06", acc_reqs + sem_reqs + reqs + r2_reqs + box_reqs)
     acc = [json.loads(a) for a in raw[:len(acc_reqs)]]
     check_loop_semantics(chk, raw[len(acc_reqs):len(acc_reqs) + len(sem_reqs)])
-    answers = [json.loads(a) for a in raw[len(acc_reqs) + len(sem_reqs):]]
+    n0 = len(acc_reqs) + len(sem_reqs)
+    answers = [json.loads(a) for a in raw[n0:n0 + len(reqs)]]
+    r2_answers = [json.loads(a) for a in raw[n0 + len(reqs):n0 + len(reqs) + len(r2_reqs)]]
+    check_broadcast_semantics(chk, raw[n0 + len(reqs) + len(r2_reqs):])
+    stats["freeze_masks"] = stats["freeze_equal"] = stats["body_identity_programs"] = stats["body_identity_equal"] = 0
+    for (what, pi, ri, si), ans in zip(r2_owner, r2_answers):
+        prog, _, ins = exported[pi]
+        if "error" in ans:
+            broken.append({"program": prog.name, "driver_error": ans["error"]})
+            continue
+        if what == "mask":
+            slot = ins.records[ri]["freeze"]["slots"][si]
+            real_shape = ans["shape"] if slot["axes"] is not None else slot["maskShape"]
+            stats["freeze_masks"] += 1
+            chk.count({"program": prog.name, "freeze": slot, "predShape": ins.records[ri]["freeze"]["predShape"]},
+                      nontrivial=True)
+            if slot["select"] == "Where" and slot["elseOld"] is True and real_shape == ans["prescribedShape"]:
+                stats["freeze_equal"] += 1
+            else:
+                broken.append({"program": prog.name, "what": "freeze mask of the vmapped while (Where(mask, new, old))",
+                               "slot": si, "real": {**slot, "maskShapeFromAxes": real_shape},
+                               "prescribed": {"maskShape": ans["prescribedShape"], "axes": ans["prescribedAxes"],
+                                              "select": "Where", "elseOld": True}})
+        else:
+            stats["body_identity_programs"] += 1
+            model_marks = sorted([(float(m),) for m in ans["bodies"]] + [tuple(c) for c in prog.closures if len(c) != 1])
+            real_marks = sorted(tuple(rec.get("marks", ())) for rec in ins.records)
+            chk.count({"program": prog.name, "bodies": real_marks}, nontrivial=True)
+            if ans["bodies"] == ans["own"] and real_marks == model_marks:
+                stats["body_identity_equal"] += 1
+            else:
+                broken.append({"program": prog.name,
+                               "what": "body identity: closed-over constants found in each exported Loop/If body",
+                               "real": real_marks, "prescribed": model_marks})
     table_bad = []
     for r, a in zip(rows, acc):
         chk.count({"variant": {k: r[k] for k in fields}, "raised": r["raised"], "error": r["error"],
@@ -1110,10 +1609,32 @@ def run(chk: Check) -> None:
 
     # ---- search / validation: ORT vs eager JAX over the steering inputs ---------------------
     found_on_mismatched = set()
+    import jax
     for prog, model, ins in exported:
         t1 = time.time()
-        sess = ort_session(model.SerializeToString())
+        try:
+            sess = ort_session(model.SerializeToString())
+        except Exception as e:
+            # ONNX Runtime refuses the exported model (e.g. shape inference fails inside a Loop body): JAX runs
+            # the program, the export cannot be run at all -> a failing input (the first steering input)
+            stats["ort_errors"] += 1
+            inp = prog.inputs[0]
+            exp = flat(prog.fn(*inp))
+            found_on_mismatched.add(prog.name)
+            chk.finding({"kind": "control_flow_mismatch", "program": prog.name,
+                         "inputs": [np.asarray(v).reshape(-1)[:6].tolist() for v in inp],
+                         "ort_shapes": None, "jax_shapes": [list(x.shape) for x in exp]},
+                        f"{prog.name}: ONNX Runtime cannot load the exported model, eager JAX runs the program: "
+                        f"{str(e)[-240:]}",
+                        {"program": prog.name, "inputs": [np.asarray(v).tolist() for v in inp],
+                         "ort_error": "load: " + str(e)[-300:], "ort": None,
+                         "jax": [(list(x.shape), str(x.dtype), np.asarray(x).reshape(-1)[:8].tolist()) for x in exp],
+                         "wiring": [r.get("real") for r in ins.records]})
+            continue
         names = [i.name for i in sess.get_inputs()]
+        # the JAX side of the oracle: the same callable, compiled once per program and input shape (traced outside
+        # to_onnx, i.e. without any conversion-time substitute); plain eager evaluation if jit refuses
+        jfn = jax.jit(prog.fn)
         for inp in prog.inputs:
             stats["ort_runs"] += 1
             chk.count({"program": prog.name, "steering": [np.asarray(v).reshape(-1)[:4].tolist() for v in inp]},
@@ -1126,7 +1647,10 @@ def run(chk: Check) -> None:
                 stats["ort_errors"] += 1
             timing["ort"] += time.time() - t1
             t1 = time.time()
-            exp = flat(prog.fn(*inp))
+            try:
+                exp = flat(jfn(*inp))
+            except Exception:
+                exp = flat(prog.fn(*inp))
             timing["jax"] += time.time() - t1
             t1 = time.time()
             ok = outs is not None and len(outs) == len(exp) and all(same_result(o, e) for o, e in zip(outs, exp))
@@ -1134,7 +1658,9 @@ def run(chk: Check) -> None:
             if not ok:
                 found_on_mismatched.add(prog.name)
                 chk.finding({"kind": "control_flow_mismatch", "program": prog.name,
-                             "inputs": [np.asarray(v).reshape(-1)[:6].tolist() for v in inp]},
+                             "inputs": [np.asarray(v).reshape(-1)[:6].tolist() for v in inp],
+                             "ort_shapes": None if outs is None else [list(np.asarray(o).shape) for o in outs],
+                             "jax_shapes": [list(e.shape) for e in exp]},
                             f"{prog.name}: ONNX Runtime and eager JAX differ for steering input "
                             f"{[np.asarray(v).reshape(-1)[:4].tolist() for v in inp]}",
                             {"program": prog.name, "inputs": [np.asarray(v).tolist() for v in inp],
@@ -1168,11 +1694,15 @@ def run(chk: Check) -> None:
         "trip counts stay below 2^63-1 (the while scheme's M)",
         "the wiring extractor's data-flow analysis of the live onnx_ir graphs is trusted",
         "implicit Expand/Pad driven by loop_axis0_override is validated by the ORT-vs-JAX sweeps only",
+        "ONNX broadcasting of the freeze mask behaves as modelled by bproj (compared with ONNX Runtime Where on a box each run)",
     ]
     chk.coverage["rule"] = ("fixed programs (while: runtime bound 0/1/2/k, data-dependent exit, cond/body constants, nested, "
                             "vmapped; fori: zero trips, negative/non-zero lower bound, nested in scan; scan: several xs, "
                             "carries, stacked outputs, captured tracers, symbolic and zero length, no xs; cond/switch: both "
-                            "branches, all clamped indices, nested, mixed with while) + seeded arity variations; every "
+                            "branches, all clamped indices, nested, mixed with while) + seeded arity variations + round-2 "
+                            "families (vmapped while with per-example ranks 0..3 and lanes of different trip counts; loop "
+                            "bodies with scatter/gather/dynamic_update_slice/concatenate/iota/reshape extents != trip count; "
+                            "bodies from shared code objects with different closures, within and across exports); every "
                             "control-flow equation yields one wiring comparison, every steering input one ORT-vs-JAX run; "
                             "all counted cases are non-trivial (a real Loop/If node or a real execution)")
     chk.coverage["exhaustive"] = False
@@ -1184,13 +1714,19 @@ def replay(path: str) -> int:
     name = rep.get("program")
     seed = int(rep.get("seed", 0))
     thorough = rep.get("tier") == "thorough"
-    progs = fixed_programs() + random_programs(common.Rng(seed), 24 if not thorough else 240)
+    rng = common.Rng(seed)
+    progs = fixed_programs() + random_programs(rng, 24 if not thorough else 240) + round2_programs(rng, thorough)
     prog = next((p for p in progs if p.name == name), None)
     if prog is None or "inputs" not in rep:
         print("replay: nothing executable recorded (see the JSON above)")
         return 1
     model, _ = export(prog)
-    sess = ort_session(model.SerializeToString())
+    try:
+        sess = ort_session(model.SerializeToString())
+    except Exception as e:
+        print("ORT cannot load the exported model:", str(e)[-300:])
+        print("reproduced")
+        return 1
     inp = [np.asarray(v, dtype=ref.dtype).reshape(ref.shape) if np.asarray(v).size == ref.size else np.asarray(v, dtype=ref.dtype)
            for v, ref in zip(rep["inputs"], prog.inputs[0])]
     try:
